@@ -252,6 +252,8 @@ class Foreign:
 def val_wire(x, g: Gen):
     """Python value -> the model's `Val` (wire form).  Numbers are taken as the implementation
     will see them (its float type); everything that is not a number / tuple / list / dict is foreign."""
+    if isinstance(x, range):        # an integer sequence like any list
+        x = list(x)
     if isinstance(x, OrderedDict):
         return {"k": "odict", "items": [[str(k), val_wire(v, g)] for k, v in x.items()]}
     if isinstance(x, dict):
@@ -473,7 +475,14 @@ def boundary_values(g: Gen, d):
     """deterministic boundary / malformed candidates for a leaf space (the same for every seed)"""
     k = d["k"]
     out = [("none", None), ("string", "abc"), ("ragged", [[1, 2], [3]]), ("object", Foreign()),
-           ("odict", OrderedDict(a=1)), ("dict", {}), ("empty-list", []), ("big-2^40", 2 ** 40)]
+           ("odict", OrderedDict(a=1)), ("dict", {}), ("empty-list", []), ("big-2^40", 2 ** 40),
+           # foreign types that array conversion treats specially: digit strings, byte strings, complex numbers,
+           # generators, object / datetime arrays, exotic scalars — all are "foreign types": rejected, never an exception
+           ("string-012", "012"), ("string-1", "1"), ("string-1e3", "1e3"), ("string-empty", ""), ("bytes", b"\x01"),
+           ("complex", 1 + 2j), ("complex64-real", np.complex64(1)), ("complex-array", np.array([1j, 0])),
+           ("object-array", np.array([1, None], dtype=object)), ("datetime64", np.datetime64("2020-01-01")),
+           ("generator", (i for i in [1])), ("range", range(2)), ("set", {1}), ("ellipsis", Ellipsis),
+           ("big-2^63", 2 ** 63), ("neg-big", -2 ** 63 - 1), ("list-str-num", ["1", 2])]
     if k == "box":
         shape = tuple(d["shape"])
         lo = np.asarray(d["low"], dtype=np.float64).reshape(shape)
